@@ -2,7 +2,7 @@
 import os
 import re
 
-from .. import hir
+from .. import hir, mir
 from ..facts import relfile
 from ..report import RuleResult, REPO
 from .c01 import find_body, roots, eval_table
@@ -334,6 +334,57 @@ def rule_p6(F):
     return r
 
 
+def rule_p7(F):
+    """An accepted integer literal denotes its documented value: between the text and the run-time value (parser `simple_literal`
+    -> type checker `literal` -> literal arm of the LIR lowering, which narrows the i64 with `as`) something has to reject a value
+    that does not fit the literal's type; otherwise `300u8` silently denotes 44."""
+    r = RuleResult("C09.P7", "integer literals are range-checked against their type somewhere between parsing and the narrowing cast of the lowering", floor=3)
+    lowering = None
+    for cand in F.bodies_in(["src/lir/lower.rs"]):
+        if cand.mir and any(st["k"] == "assign" and st["rv"]["k"] == "agg" and st["rv"].get("variant") == "U8" and (st["rv"].get("adt") or "").endswith("IrValue")
+                            and any(mir.is_place_op(o) for o in st["rv"]["ops"]) for blk in cand.blocks for st in blk["stmts"]):
+            lowering = cand
+    stages = [("parser simple_literal", [F.body(p) for p in F.paths() if p.endswith("::simple_literal") and "parser::expr" in p]),
+              ("type checker literal", [F.body(p) for p in F.paths() if p.endswith("::literal") and "typechecker::expr" in p]),
+              ("LIR literal lowering", [lowering] if lowering is not None else [])]
+    checked = []
+    for stage, bs in stages:
+        b = bs[0] if bs else None
+        if b is None or not b.mir:
+            r.missing(stage)
+            continue
+        names_ = {hir.last(mir.callee_def(t)) for _, t in mir.calls(b)}
+        gargs = {g for _, t in mir.calls(b) if hir.last(mir.callee_def(t)) == "parse" for g in (t["f"].get("gargs") or [])}
+        if stage == "parser simple_literal":
+            # only what happens in the arms for integer tokens counts (AS numbers etc. are parsed with their own types)
+            names_, gargs = set(), set()
+            for m in hir.nodes(b.hir["value"], "match"):
+                for arm in m["arms"]:
+                    if any(("Token::Integer" in a or "Token::Hex" in a) for a in hir.pat_alternatives(arm["pat"])):
+                        for c in hir.nodes(arm["body"], "mcall"):
+                            names_.add(c["m"])
+                            if c["m"] == "parse":
+                                gargs |= set(c.get("gargs") or [])
+                        for c in hir.nodes(arm["body"], "call"):
+                            names_.add(hir.last(hir.call_def(c) or ""))
+        consts = set()
+        for blk in b.blocks:
+            for st in blk["stmts"]:
+                if st["k"] == "assign":
+                    for o in [st["rv"].get("o"), st["rv"].get("a"), st["rv"].get("b")] + list(st["rv"].get("ops", [])):
+                        c = mir.op_const(o) if o is not None else None
+                        if c is not None and ("MAX" in str(c.get("text", "")) or "MIN" in str(c.get("text", ""))):
+                            consts.add(str(c.get("text")))
+        has_check = bool(names_ & {"try_from", "try_into"}) or bool(consts) or bool(gargs & {"u8", "u16", "u32", "i8", "i16", "i32"})
+        r.inst(stage, {"fn": b.path, "range_check_found": has_check, "parse_types": sorted(gargs)})
+        if has_check:
+            checked.append(stage)
+    if lowering is not None and not checked:
+        r.bad("integer literal pipeline", "no range check", relfile(lowering.file), lowering.line,
+              "an integer literal is parsed as i64, given its type and narrowed with `as` in the lowering, and nothing on the way rejects a value that does not fit: `300u8` compiles and evaluates to 44")
+    return r
+
+
 def names(e):
     """Names of the locals an expression mentions directly (not followed)."""
     return {n["res"]["name"] for n in hir.walk(e) if n.get("k") == "path" and hir.res_local(n) is not None}
@@ -552,4 +603,4 @@ def rule_p1(F):
 
 def rules(ctx):
     F = ctx["F"]
-    return [rule_p1(F), rule_p2(F), rule_p3(F), rule_p4(F), rule_p5(F), rule_p6(F)]
+    return [rule_p1(F), rule_p2(F), rule_p3(F), rule_p4(F), rule_p5(F), rule_p6(F), rule_p7(F)]
